@@ -6,6 +6,6 @@ export CARGO_NET_OFFLINE=true
 python3 extract/extract.py "${VERIF_REPO:-/repo}/src" lean/Kanal/Generated.lean
 python3 extract/rs2lean.py "${VERIF_REPO:-/repo}/src" lean/Kanal/GenCode.lean
 python3 extract/rs2proto.py "${VERIF_REPO:-/repo}/src" lean/Kanal/GenProto.lean
-(cd lean && lake build Kanal specgen traittable specexplore protocheck specfollow)
+(cd lean && lake build Kanal specgen traittable specexplore protocheck specfollow protosearch treediff)
 (cd harness && cargo build --release --offline)
 echo "setup done"
